@@ -1,3 +1,225 @@
-(* Handlers for the non-score case kinds; extended as the model grows. *)
-let handle (line : string) (_kind : string) (_args : string list) (_obs : string) : unit =
-  failwith ("unknown case kind: " ^ line)
+(* Handlers for the board-level case kinds. See harness/cases_*.go for the line formats. *)
+open Model
+open Conv
+
+open Common
+
+(* ---------- positions and moves ---------- *)
+
+let parse_pos (tok : string) : position =
+  match List.map n_of_hex (split_on ',' tok) with
+  | l when List.length l = 20 ->
+    let rec take k l = if k = 0 then ([], l) else match l with x :: r -> let (a, b) = take (k - 1) r in (x :: a, b) | [] -> failwith "short" in
+    let (pcs, rest) = take 14 l in
+    (match rest with
+     | [a; b; c; d; cas; ep] -> { pieces = pcs; rotated_bb = { r0 = a; r90 = b; r45L = c; r45R = d }; castling = cas; enpassant = ep }
+     | _ -> failwith "bad pos")
+  | _ -> failwith ("bad position token: " ^ tok)
+
+let pos_str (p : position) : string =
+  String.concat "," (List.map hex_of_n (p.pieces @ [p.rotated_bb.r0; p.rotated_bb.r90; p.rotated_bb.r45L; p.rotated_bb.r45R; p.castling; p.enpassant]))
+
+let parse_move (tok : string) : move =
+  match List.map (fun x -> n_of_int (int_of_string x)) (split_on ',' tok) with
+  | [t; f; to_; pc; pr; cap] -> { mtype = t; mfrom = f; mto = to_; mpiece = pc; mpromo = pr; mcapture = cap }
+  | _ -> failwith ("bad move token: " ^ tok)
+
+let move_str (m : move) : string =
+  Printf.sprintf "%d,%d,%d,%d,%d,%d" (int_of_n m.mtype) (int_of_n m.mfrom) (int_of_n m.mto) (int_of_n m.mpiece) (int_of_n m.mpromo) (int_of_n m.mcapture)
+
+let color_code (c : color) = match c with Wh -> 0 | Bl -> 1
+let kind_code (k : kind) = int_of_n (code_of_kind k)
+let okind_code = function None -> 0 | Some k -> kind_code k
+
+let smove_str (m : smove) : string = Printf.sprintf "%d-%d-%d" (int_of_nat m.sfrom) (int_of_nat m.sto) (okind_code m.spromo)
+
+let is_some = function Some _ -> true | None -> false
+
+(* canonical normalisation of hex strings as printed by Go (%x, no leading zeros) *)
+let norm_hex s = let s = String.lowercase_ascii s in
+  let n = String.length s in
+  let i = ref 0 in
+  while !i < n - 1 && s.[!i] = '0' do incr i done;
+  String.sub s !i (n - !i)
+let norm_pos_tok tok = String.concat "," (List.map norm_hex (split_on ',' tok))
+
+(* ---------- movegen ---------- *)
+
+(* metadata consistency of an implementation move against the specification *)
+let metadata_ok (sp : spos) (m : move) : string option =
+  let sm = abs_move m in
+  let t = int_of_n m.mtype in
+  let moving = Model.moving sp sm and captured = Model.captured sp sm in
+  let is_ep = is_ep_move sp sm and is_castle = is_castling_move sp.brd sm and is_dbl = is_double_step sp.brd sm in
+  let pawn = (moving = Some P) in
+  let promo = is_some sm.spromo in
+  let expect_type =
+    if is_castle then (if int_of_n m.mto land 7 = 1 then 6 else 5)
+    else if is_ep then 4
+    else if promo && is_some captured then 9
+    else if promo then 8
+    else if is_some captured then 7
+    else if is_dbl then 3
+    else if pawn then 2
+    else 1 in
+  if t <> expect_type then Some (Printf.sprintf "type of %s should be %d" (move_str m) expect_type)
+  else if Some (int_of_n m.mpiece) <> (match moving with Some k -> Some (kind_code k) | None -> None) then Some ("moving piece of " ^ move_str m)
+  else if (t = 7 || t = 9) && int_of_n m.mcapture <> okind_code captured then Some ("captured piece of " ^ move_str m)
+  else if (t <> 7 && t <> 9) && int_of_n m.mcapture <> 0 then Some ("capture recorded on non-capture " ^ move_str m)
+  else if (not promo) && false then None
+  else None
+
+let handle_movegen line args obs =
+  match args with
+  | [ptok; turn] ->
+    let p = parse_pos ptok and c = n_of_int (int_of_string turn) in
+    let obs_moves = List.filter (fun w -> w <> "") (split_on ';' obs) in
+    let parsed = List.map (fun w ->
+        match split_on ',' w with
+        | [t; f; to_; pc; pr; cap; ok] -> (parse_move (String.concat "," [t; f; to_; pc; pr; cap]), ok = "1")
+        | _ -> failwith ("bad movegen obs " ^ w)) obs_moves in
+    (* model: same multiset of pseudo-legal moves, same legality flags *)
+    let model = List.map (fun m -> (move_str m, is_some (pos_move p m))) (pseudo_legal_moves p c) in
+    let impl = List.map (fun (m, ok) -> (move_str m, ok)) parsed in
+    if List.sort compare model <> List.sort compare impl then
+      report_mismatch line (String.concat ";" (List.map (fun (s, ok) -> s ^ (if ok then ",1" else ",0")) model));
+    if wf_b p c then begin
+      bump "movegen/wf";
+      let sp = abs_pos p in
+      let sc = color_of c in
+      let spec = List.sort compare (List.map smove_str (spec_legal sp sc)) in
+      let legal = List.filter snd parsed in
+      let got = List.sort compare (List.map (fun (m, _) -> smove_str (abs_move m)) legal) in
+      if spec <> got then report_spec line ("legal set " ^ String.concat " " spec)
+      else begin
+        List.iter (fun (m, _) ->
+            (match int_of_n m.mtype with
+             | 4 -> bump "move/enpassant" | 5 | 6 -> bump "move/castle" | 8 | 9 -> bump "move/promotion"
+             | 7 -> bump "move/capture" | 3 -> bump "move/jump" | _ -> ());
+            match metadata_ok sp m with Some e -> report_spec line e | None -> ()) legal
+      end;
+      if in_check sp.brd sc then bump "movegen/in-check";
+      if spec = [] then bump "movegen/no-legal-move";
+      if List.exists (fun (_, ok) -> not ok) parsed then bump "movegen/has-illegal-pseudo"
+    end else bump "movegen/not-wf"
+  | _ -> failwith ("bad movegen line: " ^ line)
+
+let turn_of_move (p : position) (m : move) : n option =
+  match square p m.mfrom with Some (c, _) -> Some c | None -> None
+
+let handle_move line args obs =
+  match args with
+  | [ptok; mtok] ->
+    let p = parse_pos ptok and m = parse_move mtok in
+    let r = pos_move p m in
+    let model = match r with Some q -> pos_str q | None -> "illegal" in
+    let obs_n = if obs = "illegal" then obs else norm_pos_tok obs in
+    if model <> obs_n then report_mismatch line model;
+    (match turn_of_move p m with
+     | Some c when wf_b p c && obs <> "illegal" ->
+       bump "move/wf-legal";
+       let q = parse_pos obs in
+       if not (inv_b q) then report_spec line "successor violates the representation invariant (views disagree)"
+       else begin
+         let expect = apply_move (abs_pos p) (color_of c) (abs_move m) in
+         if not (spos_eqb (abs_pos q) expect) then report_spec line "successor position differs from the rules"
+         else if not (wf_b q (if int_of_n c = 0 then n_of_int 1 else n_of_int 0)) then report_spec line "successor is not a legal position"
+       end
+     | _ -> bump "move/other")
+  | _ -> failwith ("bad move line: " ^ line)
+
+(* ---------- attacks ---------- *)
+
+let occ_fun (occ : n) : nat -> bool =
+  let arr = Array.make 64 false in
+  List.iter (fun s -> let i = int_of_n s in if i < 64 then arr.(i) <- true) (bits_asc occ);
+  fun s -> let i = int_of_nat s in i < 64 && arr.(i)
+
+let mask_of_squares (l : nat list) : string =
+  (* 64-bit mask as hex from a list of squares *)
+  let arr = Array.make 64 false in
+  List.iter (fun s -> arr.(int_of_nat s) <- true) l;
+  let buf = Buffer.create 16 in
+  for d = 15 downto 0 do
+    let v = (if arr.(4 * d + 3) then 8 else 0) + (if arr.(4 * d + 2) then 4 else 0) + (if arr.(4 * d + 1) then 2 else 0) + (if arr.(4 * d) then 1 else 0) in
+    Buffer.add_char buf "0123456789abcdef".[v]
+  done;
+  norm_hex (Buffer.contents buf)
+
+let handle_attacks line args obs =
+  match args with
+  | [a; b; c; d; sq] ->
+    let r = { r0 = n_of_hex a; r90 = n_of_hex b; r45L = n_of_hex c; r45R = n_of_hex d } in
+    let s = n_of_int (int_of_string sq) in
+    let model = String.concat " " (List.map (fun x -> norm_hex (hex_of_n x))
+        [rook_attackboard r s; bishop_attackboard r s; king_attackboard s; knight_attackboard s]) in
+    let obs_n = String.concat " " (List.map norm_hex (words obs)) in
+    if model <> obs_n then report_mismatch line model;
+    let occ = occ_fun r.r0 in
+    let sn = nat_of_int (int_of_string sq) in
+    let spec = String.concat " " [
+        mask_of_squares (attacks_from occ Wh R sn); mask_of_squares (attacks_from occ Wh Bi sn);
+        mask_of_squares (attacks_from occ Wh K sn); mask_of_squares (attacks_from occ Wh Kn sn)] in
+    bump "attacks";
+    if spec <> obs_n then report_spec line spec
+  | _ -> failwith ("bad attacks line: " ^ line)
+
+let handle_pawnboards line args obs =
+  match args with
+  | [c; pawns; all] ->
+    let cn = n_of_int (int_of_string c) and pw = n_of_hex pawns and al = n_of_hex all in
+    let model = norm_hex (hex_of_n (pawn_captureboard cn pw)) ^ " " ^ norm_hex (hex_of_n (pawn_moveboard al cn pw)) in
+    let obs_n = String.concat " " (List.map norm_hex (words obs)) in
+    if model <> obs_n then report_mismatch line model;
+    (* spec: union over the pawns of their two forward diagonals *)
+    let sc = color_of cn in
+    let sqs = List.concat_map (fun s -> attacks_from (fun _ -> false) sc P (nat_of_int (int_of_n s))) (bits_asc pw) in
+    let spec = mask_of_squares sqs in
+    bump "pawnboards";
+    (match words obs_n with
+     | cap :: _ -> if cap <> spec then report_spec line spec
+     | _ -> ())
+  | _ -> failwith ("bad pawnboards line: " ^ line)
+
+(* queries P turn => checkedW checkedB mate attackedmask  (attackedmask: squares s with IsAttacked(turn, s)) *)
+let handle_queries line args obs =
+  match args with
+  | [ptok; turn] ->
+    let p = parse_pos ptok and c = n_of_int (int_of_string turn) in
+    let b01 b = if b then "1" else "0" in
+    let att = List.filter (fun s -> is_attacked p c (n_of_int s)) (List.init 64 (fun i -> i)) in
+    let model = String.concat " " [b01 (is_checked p (n_of_int 0)); b01 (is_checked p (n_of_int 1)); b01 (is_checkmate p c);
+                                   mask_of_squares (List.map nat_of_int att)] in
+    let obs_n = (match words obs with [a; b; m; mask] -> String.concat " " [a; b; m; norm_hex mask] | _ -> obs) in
+    if model <> obs_n then report_mismatch line model;
+    if inv_b p then begin
+      bump "queries";
+      let sp = abs_pos p in
+      let sc = color_of c in
+      let satt = List.filter (fun s -> attacked sp.brd (other sc) (nat_of_int s)) (List.init 64 (fun i -> i)) in
+      let spec = String.concat " " [b01 (in_check sp.brd Wh); b01 (in_check sp.brd Bl);
+                                    (if wf_b p c then b01 (checkmate sp sc) else (match words obs with [_; _; m; _] -> m | _ -> "?"));
+                                    mask_of_squares (List.map nat_of_int satt)] in
+      if spec <> obs_n then report_spec line spec
+    end
+  | _ -> failwith ("bad queries line: " ^ line)
+
+(* perft P turn depth => count *)
+let handle_perft line args obs =
+  match args with
+  | [ptok; turn; d] ->
+    let p = parse_pos ptok and c = n_of_int (int_of_string turn) in
+    let spec = int_of_z (spec_perft (abs_pos p) (color_of c) (nat_of_int (int_of_string d))) in
+    bump "perft";
+    if string_of_int spec <> obs then report_spec line (string_of_int spec)
+  | _ -> failwith ("bad perft line: " ^ line)
+
+let handle (line : string) (kind : string) (args : string list) (obs : string) : unit =
+  match kind with
+  | "movegen" -> handle_movegen line args obs
+  | "move" -> handle_move line args obs
+  | "attacks" -> handle_attacks line args obs
+  | "pawnboards" -> handle_pawnboards line args obs
+  | "queries" -> handle_queries line args obs
+  | "perft" -> handle_perft line args obs
+  | _ -> Dispatch2.handle line kind args obs
